@@ -92,6 +92,17 @@ def run(tier, seed, drv):
                         ups = [u for u in run_["trace"].of("update") if u["comp"] == who and u["n"] > raised[0]["n"]]
                         if not ups:
                             res.violate(V("early-interrupt-lost", f"{who} raised an interrupt before the scheduler came up (delay {late}) and was never updated afterwards", site="early-interrupt", comp=who), case)
+                        # ... and the run proceeds as if all had started together: in a simultaneous start
+                        # an interrupt raised that early arrives during the initial tick and is served by a
+                        # tick of its own at the initial time; the late scheduler must do the same
+                        n_at_t0 = len([u for u in run_["trace"].of("update") if u["comp"] == who and u["time"] == scn.get("t0", 0)])
+                        same = run_scenario(dict(copy.deepcopy(scn), stims=s2["stims"], n_ticks=4), bus="sync")
+                        raised_same = [e for e in same["trace"].of("raise") if e.get("ok")]
+                        if raised_same:
+                            m_at_t0 = len([u for u in same["trace"].of("update") if u["comp"] == who and u["time"] == scn.get("t0", 0)])
+                            if n_at_t0 < m_at_t0:
+                                res.violate(V("start-order-dependent", f"{who}: {m_at_t0} updates at the initial time when all start together, {n_at_t0} when the scheduler starts {late} steps late (early interrupt not served by its own tick)",
+                                              site="early-interrupt", comp=who), case)
     res.rule = (f"2 configurations (3-device diamond-ish chain; source -> system(2 inner devices) -> sink); every assignment of start delays 0..{maxd} loop "
                 "steps to the master and each top-level component" + (" (sampled to ~90 vectors per configuration in the quick tier, extremes always included)" if tier == "quick" else "") +
                 ", under internal-bus semantics and a delaying bus; plus interrupts raised at each step before a scheduler that starts 2.." + str(maxd + 2) +
